@@ -171,6 +171,18 @@ func c01Degenerate() []string {
 		"a = make(map[int64]string); a[\"b\"] = \"x\"", "a = make(map[int64]string); delete(a, \"b\")", "m = map[int64]int64{}; m.x = 1", "m = map[int64]int64{}; m.x += 1",
 		"m = make(map[string]int64); m.x = \"s\"", "s = make(struct{M map[int64]string}); s.M.k = \"v\"", "m = make(map[*int64]int64); m.k = 1", "m = make(map[chan int64]int64); m.k = 1",
 		"m = make(map[int64]string); m.k++", "m = make(map[interface]int64); m.k = 1; m[nilptrs] = 2", "var m = make(map[int8]int8); m.kk = 1",
+		// zero values of types a script defines with make(type ...): function types, module types, Go structs with unexported fields
+		"make(type a, func(){}); x = make(a); go x(); hzero()", "make(type a, func(){}); x = make(a); x()", "make(type a, func(x){}); x = make(a); go x(1); hzero()",
+		"make(type a, func(x, y, z, w){}); x = make(a); go x(1, 2, 3, 4); hzero()", "make(type a, func(){}); x = make(struct{A a}); go x.A(); hzero()",
+		"make(type a, func(){}); x = make(a); func g(h) { go h() }; g(x); hzero()", "make(type a, func(){}); x = make(a); defer x()", "make(type a, func(x...){}); x = make(a); go x(1); hzero()",
+		"make(type a, mod); b = make([]a, 1); b[0].c", "make(type a, mod); b = make([]a, 1); b[0].c = 1", "make(type a, mod); b = make([]a, 1); var c = b[0]", "make(type a, mod); b = make([]a, 1); c = b[0]",
+		"make(type a, mod); b = make(struct{A a}); b.A.z", "make(type a, mod); e = make([]a, 1); e[0].String()", "make(type a, mod); e = make([]a, 1); for i in e { i.v }",
+		"make(type a, mod); e = make(map[string]a); e.a = nil; e.a.v", "make(type a, mod); e = make(chan a, 1); e <- nil; x = <-e; x.v", "make(type a, mod); e = make([]a, 2); var f, g = e; f.v",
+		"make(type a, mod); e = make([]a, 2); func f(x) { x.b = 1 }; go f(e[0]); hzero()", "make(type a, mod); e = make([]a, 2); go func() { e[0].b }(); hzero()",
+		"x = *mod; x.values", "x = *mod; x.rwMutex", "x = *mod; x.parent", "x = *mod; [x.values]", "x = *mod; x.values.v", "x = *mod; for k, v in x.values { [v] }", "x = *mod; throw x.externalLookup",
+		"(*mod).values", "b = [*mod]; b[0].values", "b = *mod; b.rwMutex.Lock()", "make(type E, *mod); e = make([]E, 1); e[0].values", "x = make(type T, 1); x.t", "x = make(type T, 1); x.t.Size_ = 100",
+		"x = make(type T, \"\"); x.t.Equal(nil, nil)", "x = make(type T, 1); *x.t.GCData", "x = make(type T, 1); y = *x; y.t.Str", "go func() { x = make(type T, 1); [x.t] }(); hzero()",
+		"try { throw 1 } catch e { x = make(type U, e); m = x.Method(0); m.Func.ptr }", "try { throw 1 } catch e { e.Message }", "try { throw 1 } catch e { x = *e; x.message }", "pt.a", "x = *pt; x.hidden",
 		"ch <- ch", "ch2 = make(chan int64); ch2 <- \"s\"", "x, ok = <- nothing", "x, ok = <- ch", "for x in ch { break }", "go probe(1)", "go nothing()", "go n", "go mod.v()",
 	}
 }
